@@ -741,6 +741,32 @@ impl Interpreter {
         self.call_stack.len() + vm_depth
     }
 
+    /// Read-only snapshot of execution bookkeeping (verification hook H4).
+    #[cfg(feature = "verif-hooks")]
+    pub fn verif_quiescence(&self) -> crate::verif_hooks::Quiescence {
+        crate::verif_hooks::Quiescence {
+            env_is_global: Gc::ptr_eq(&self.env, &self.global_env),
+            env_guards: self.env_guards.len(),
+            call_stack: self.call_stack.len(),
+            active_vm: self.active_vm.is_some(),
+            trampoline_depth: self
+                .active_vm
+                .as_ref()
+                .map(|vm| vm.trampoline_depth())
+                .unwrap_or(0),
+            pending_orders: self.pending_orders.len(),
+            cancelled_orders: self.cancelled_orders.len(),
+            order_responses: self.order_responses.len(),
+            suspended_for_order: self.suspended_for_order.is_some(),
+            wait_contexts: self.wait_graph.contexts.len(),
+            ready_queue: self.wait_graph.ready_queue.len(),
+            pending_program: self.pending_program.is_some(),
+            pending_module_sources: self.pending_module_sources.len(),
+            exports: self.exports.len(),
+            next_order_id: self.next_order_id,
+        }
+    }
+
     /// Set the GC threshold (0 = disable automatic collection)
     ///
     /// Lower values reduce peak memory but increase GC overhead.
